@@ -63,7 +63,14 @@ def run_tlc(module: str, cfg: str | None, scratch: Path, env: dict | None = None
     else:
         cfg_path = Path(cfg) if os.path.isabs(cfg) else SPEC / cfg
     libs = [str(p) for p in (libdirs or [])] + [str(scratch), str(SPEC)]
-    cmd = ["java", "-XX:+UseParallelGC", "-Xss16m", f"-DTLA-Library={os.pathsep.join(libs)}"]
+    # heap: a quarter of the machine at most (the JVM's own default), never more than 8 GiB - the models here are small, and several
+    # checks may run side by side
+    try:
+        phys = os.sysconf("SC_PAGE_SIZE") * os.sysconf("SC_PHYS_PAGES")
+    except (ValueError, OSError):
+        phys = 16 * 2 ** 30
+    heap_mb = max(1024, min(8192, int(phys / 4 / 2 ** 20)))
+    cmd = ["java", "-XX:+UseParallelGC", "-Xss16m", f"-Xmx{heap_mb}m", f"-DTLA-Library={os.pathsep.join(libs)}"]
     cmd += (jvm or [])
     cmd += ["-cp", JAR, "tlc2.TLC", "-metadir", str(meta), "-noGenerateSpecTE",
             "-workers", str(workers), "-config", str(cfg_path)]
